@@ -265,7 +265,9 @@ def run(ctx):
     top = 4 if quick else 5
     cases = []
     for cls in DECODER_FOR:
-        for size in domain.sizes(cls, top):
+        # incl. the thin open lattices (a side of length 1: no vertex
+        # generators at all, a face is generator number 0)
+        for size in domain.sizes(cls, top, thin=True):
             cases.append({'kind': 'geometry', 'cls': cls, 'size': list(size)})
     # weight <= 2 Z errors, exhaustively, on small sizes
     small = {'Toric3DCode': [(2, 2, 2), (3, 3, 3), (2, 3, 2)] if quick else
